@@ -4,7 +4,12 @@ import (
 	"iter"
 	"math/rand/v2"
 	"path"
+	"sync"
 )
+
+// shuffleM guards the random generator handed to Iterate: every Set shares
+// one *rand.Rand, which is not safe for concurrent use.
+var shuffleM sync.Mutex
 
 type Dir struct {
 	Name  string
@@ -27,9 +32,11 @@ func (d *Dir) Path() string {
 type Dirs []Dir
 
 func (ds Dirs) Iterate(r *rand.Rand) iter.Seq2[Dir, bool] {
+	shuffleM.Lock()
 	r.Shuffle(len(ds), func(i, j int) {
 		ds[i], ds[j] = ds[j], ds[i]
 	})
+	shuffleM.Unlock()
 
 	return func(yield func(dir Dir, ok bool) bool) {
 		for _, dir := range ds {
